@@ -152,6 +152,92 @@ def _fasta_universe(ctx, cfg, F):
     return dict(pr.peptide_map), dict(pr.shared_peptides), dict(pr.protein_map), ident
 
 
+def sym_confidence_proteins(ctx, cfg):
+    """Protein level of the real assign_confidence(proteins=...): peptide-level rows -> picked_protein ->
+    proteins file -> q-values -> targets.proteins / decoys.proteins."""
+    import z3
+    from symx import vfs, sympd, symnp, core
+    from symx.core import SNum, SBool, PathOutcome, Unsupported
+    from checks import conflib, c03, spec
+    from mokapot.proteins import Proteins
+    PP, U, F = setup()
+    C, W, U2, T, D, Q = conflib.setup()
+    vfs.reset()
+    n = cfg["n"]
+    peptide_map, shared, protein_map, ident = _universe(cfg)
+    prot = Proteins(decoy_prefix=PREFIX, peptide_map=dict(peptide_map), shared_peptides=dict(shared), protein_map=dict(protein_map), has_decoys=True)
+    ps, s = conflib.make_collection(ctx, n, 0, "bool")
+    rows = []
+    for i in range(n):
+        k = int(ctx.fresh_int("identity%d" % i, 0, len(ident) - 1))
+        seq, owner = ident[k]
+        rows.append((NOTATIONS[(i + cfg["notation_offset"]) % len(NOTATIONS)](seq), seq, owner))
+    if len({r[0] for r in rows}) != n:
+        raise core.Abort("duplicate peptide string")
+    tab = vfs.get(s["path"])
+    tab["Peptide"] = [r[0] for r in rows]
+    for i in range(n):  # distinct spectra: the PSM and peptide levels keep every row (competition is C03's business)
+        ctx.assume(s["scan"][i] == i)
+    C.CONFIDENCE_CHUNK_SIZE = U2.MERGE_SORT_CHUNK_SIZE = n + 1
+    inputs = dict(peptides=[r[0] for r in rows], scores=[SNum(z) for z in s["score"]], labels=[SBool(z) for z in s["lab"]],
+                  maps=dict(peptide_map=peptide_map, shared=shared, protein_map=protein_map))
+    old = sympd.SAMPLE_MODE[0]
+    sympd.SAMPLE_MODE[0] = cfg.get("sample", "nondet")
+    try:
+        c03.run_confidence(ctx, cfg, C, [s], [ps], [symnp.SArray([SNum(z) for z in s["score"]], symnp.float64)], None, True, True, True, [None], proteins=prot)
+    except Unsupported:
+        raise
+    except ValueError as ex:
+        if "could be matched to proteins" in str(ex) or "decoy peptides could be mapped" in str(ex):
+            return PathOutcome([("error_only_with_unmappable_peptides", z3.BoolVal(any(r[2] == "?" for r in rows)))], inputs, None, note="ValueError(unmatched)")
+        return PathOutcome([], inputs, None, "exc", note="ValueError:" + str(ex)[:80])
+    except Exception as ex:
+        import traceback
+        tb = traceback.extract_tb(ex.__traceback__)[-1]
+        return PathOutcome([], inputs, None, "exc", note="%s:%s @%s:%d" % (type(ex).__name__, str(ex)[:60], os.path.basename(tb.filename), tb.lineno))
+    finally:
+        sympd.SAMPLE_MODE[0] = old
+    tf, dfile = vfs.get("/vfs/out/targets.proteins"), vfs.get("/vfs/out/decoys.proteins")
+    props = [("protein_files_written", z3.BoolVal(tf is not None and dfile is not None))]
+    if tf is None or dfile is None:
+        return PathOutcome(props, inputs, None)
+    cols = ["mokapot protein group", "best peptide", "stripped sequence", "score", "q-value", "posterior_error_prob"]
+    props.append(("header", z3.BoolVal(list(tf.columns) == cols and list(dfile.columns) == cols)))
+    cand = {}
+    for i, (pep, seq, owner) in enumerate(rows):
+        if owner not in (None, "?"):
+            cand.setdefault(_pair_key(owner), []).append(i)
+    entries = []
+    for tab_, is_t in ((tf, True), (dfile, False)):
+        for r in tab_.to_dict(orient="records"):
+            entries.append((r, is_t))
+    props.append(("one_entry_per_pair_with_a_unique_peptide", z3.BoolVal(len(entries) == len(cand))))
+    zs, zt = s["score"], s["lab"]
+    seen, chosen = set(), []
+    for r, is_t in entries:
+        g = r["mokapot protein group"]
+        key = _pair_key(g) if isinstance(g, str) else None
+        ok = key in cand and key not in seen
+        props.append(("entry_is_a_pair_with_unique_peptides", z3.BoolVal(bool(ok))))
+        if not ok:
+            continue
+        seen.add(key)
+        opts = []
+        for i in cand[key]:
+            opts.append(z3.And(z3.BoolVal(r["best peptide"] == rows[i][0] and r["stripped sequence"] == rows[i][1] and g == rows[i][2]),
+                               core._z(r["score"]) == zs[i], (zt[i] if is_t else z3.Not(zt[i])), z3.And([zs[i] >= zs[j] for j in cand[key]])))
+        props.append(("entry_is_best_unique_peptide_of_pair_in_the_right_file", z3.Or(opts)))
+        chosen.append((r, is_t))
+    if len(chosen) == len(entries) and entries:
+        # protein q-values: the C01 formula over exactly these entries
+        sc = [core._z(r["score"]) for r, _ in entries]
+        tg = [z3.BoolVal(t) for _, t in entries]
+        qs = spec.spec_q_terms(sc, tg, True)
+        for (r, _), q in zip(entries, qs):
+            props.append(("protein_qvalue_over_entries", core._z(r["q-value"]) == q))
+    return PathOutcome(props, inputs, None)
+
+
 def harnesses(tier):
     from symx.runner import Harness
     PP, U, F = setup()
@@ -175,6 +261,12 @@ def harnesses(tier):
             add("picked[n=3,pairs=2,notation+%d]" % off, dict(n=3, pairs=2, notation_offset=off))
         add("picked[n=4,pairs=2]", dict(n=4, pairs=2, notation_offset=2))
         add("picked[n=3,pairs=1,unknown peptides]", dict(n=3, pairs=1, notation_offset=0, unknown=True))
+    from checks import conflib
+    C = conflib.setup()[0]
+    for cfg in ([dict(n=2, pairs=1, notation_offset=1), dict(n=2, pairs=2, notation_offset=0)] if tier == "quick" else [dict(n=3, pairs=1, notation_offset=1), dict(n=2, pairs=2, notation_offset=3), dict(n=3, pairs=2, notation_offset=0, sample="identity")]):
+        hs.append(Harness("confidence_proteins[n=%d,pairs=%d]" % (cfg["n"], cfg["pairs"]), cfg, sym_confidence_proteins, real="conf_proteins",
+                          functions=[C.assign_confidence, C.LinearConfidence._assign_confidence, PP.picked_protein], bounds=cfg, stubs=stubs + ["as C03 (VFS, q-values by the C01 formula)"],
+                          assumptions=["distinct spectra (competition below the protein level is C03's business)"], sample_rate=0.05))
     # group names as built by the real read_fasta, corresponding entry orders
     for nm, tp in (("equal sets", {"A": ["PEPTIDEAK", "PEPTIDECK"], "B": ["PEPTIDEAK", "PEPTIDECK"]}),
                    ("nested sets", {"A": ["PEPTIDEAK", "PEPTIDECK"], "B": ["PEPTIDEAK"]})):
@@ -255,4 +347,74 @@ def real_picked_fasta(cfg, inp):
     return real_picked(cfg, dict(inp, maps=maps))
 
 
-REAL = {"picked": real_picked, "picked_fasta": real_picked_fasta}
+def real_conf_proteins(cfg, inp):
+    import tempfile
+    import re
+    from pathlib import Path
+    from fractions import Fraction
+    import numpy as np
+    import pandas as pd
+    import mokapot
+    from mokapot.proteins import Proteins
+    from checks import spec
+    C = __import__("sys").modules["mokapot.confidence"]
+    maps = inp["maps"]
+    prot = Proteins(decoy_prefix=PREFIX, peptide_map=dict(maps["peptide_map"]), shared_peptides=dict(maps["shared"]), protein_map=dict(maps["protein_map"]), has_decoys=True)
+    n = len(inp["peptides"])
+    lab = [bool(x) for x in inp["labels"]]
+    sc = [float(x) for x in inp["scores"]]
+    with tempfile.TemporaryDirectory(prefix="verif_c15p_") as d:
+        df = pd.DataFrame({"SpecId": ["psm%d" % i for i in range(n)], "Label": lab, "ScanNr": list(range(n)), "ExpMass": [1.0] * n, "Peptide": inp["peptides"],
+                           "Proteins": ["p"] * n, "feat": [0.5] * n})
+        p = Path(d) / "a.pin"
+        df.to_csv(p, sep="\t", index=False)
+        os.makedirs(os.path.join(d, "out"))
+        ps = mokapot.read_pin(p, max_workers=1)[0]
+        old = C.peps_from_scores
+        C.peps_from_scores = lambda s_, t_, a="qvality": np.full(len(s_), 0.5)
+        try:
+            mokapot.assign_confidence([ps], max_workers=1, scores=[np.array(sc)], descs=[True], dest_dir=Path(d) / "out", prefixes=[None], decoys=True, proteins=prot)
+        except ValueError as ex:
+            if "could be matched" in str(ex) or "could be mapped" in str(ex):
+                return dict(exception="ValueError", violation=None)
+            return dict(exception=repr(ex), violation="assign_confidence(proteins=...) raised %r" % (ex,))
+        except Exception as ex:
+            return dict(exception=repr(ex), violation="assign_confidence(proteins=...) raised %r" % (ex,))
+        finally:
+            C.peps_from_scores = old
+        tf = pd.read_csv(os.path.join(d, "out", "targets.proteins"), sep="\t")
+        dfile = pd.read_csv(os.path.join(d, "out", "decoys.proteins"), sep="\t")
+
+    def strip(x):
+        x = re.sub(r"[\[\(].*?[\]\)]", "", x)
+        x = re.sub(r"^.*?\.", "", x)
+        x = re.sub(r"\..*?$", "", x)
+        return re.sub(r"[a-z]", "", x)
+    stripped = [strip(x) for x in inp["peptides"]]
+    owners = [maps["peptide_map"].get(x) for x in stripped]
+    cand = {}
+    for i, o in enumerate(owners):
+        if o is not None:
+            cand.setdefault(_pair_key(o), []).append(i)
+    entries = [(r, True) for r in tf.to_dict("records")] + [(r, False) for r in dfile.to_dict("records")]
+    if len(entries) != len(cand):
+        return dict(violation="%d protein entries for %d pairs with unique peptides" % (len(entries), len(cand)))
+    seen = set()
+    for r, is_t in entries:
+        key = _pair_key(r["mokapot protein group"])
+        if key not in cand or key in seen:
+            return dict(violation="entry %r is not a distinct pair" % (r["mokapot protein group"],))
+        seen.add(key)
+        best = max(sc[i] for i in cand[key])
+        if not any(r["best peptide"] == inp["peptides"][i] and r["stripped sequence"] == stripped[i] and r["mokapot protein group"] == owners[i] and abs(float(r["score"]) - sc[i]) < 1e-9
+                   and sc[i] == best and lab[i] == is_t for i in cand[key]):
+            return dict(violation="protein entry %s (in %s file) is not the best unique peptide of its pair" % (r, "targets" if is_t else "decoys"))
+    if entries:
+        q = spec.conc_q([Fraction(float(r["score"])) for r, _ in entries], [t for _, t in entries], True)
+        for (r, _), qe in zip(entries, q):
+            if abs(float(r["q-value"]) - float(qe)) > 2e-6:
+                return dict(violation="protein q-value %r, formula over the entries gives %s" % (r["q-value"], qe))
+    return dict(outputs=None, violation=None)
+
+
+REAL = {"picked": real_picked, "picked_fasta": real_picked_fasta, "conf_proteins": real_conf_proteins}
